@@ -8,12 +8,20 @@
 (* MC   (MC_Bitemporal_unstable.cfg, Stable = FALSE): the same mechanism with a sort that does  *)
 (*      not keep the concat order of equal stamps MUST violate Refines - the clause "of several *)
 (*      sharing a stamp the one merged last" rests on the stability of the sort.                *)
+(* MC   (MC_Bitemporal_zones*.cfg, Zones with several members): stamps and read times written   *)
+(*      in different zones, mixed within one history - the same clauses.                        *)
+(* MC   (MC_Bitemporal_nozone.cfg, ZoneAware = FALSE): the same mechanism dropping the zone of  *)
+(*      a written time without converting MUST violate Refines - two desks in two zones.        *)
 (* GEN  (MC_Bitemporal_gen*.cfg, NEXT NextGen): hist records the calls; every state that is     *)
 (*      expanded prints its history together with the reads the LAW admits after it, for every  *)
 (*      read time and both `what`.  Exhaustive for the small constants, -simulate beyond.        *)
 EXTENDS Bitemporal, TLC, Json
 
 CONSTANTS MaxAgain     \* generator only: bound on the re-merges recorded in one history
+
+\* zone sets for the configurations (a .cfg cannot spell a negative number)
+ZonesEW  == {-1, 1}          \* one desk east, one west of the reader's clock
+ZonesUEW == {-1, 0, 1}
 
 VARIABLE hist
 vars == <<pubs, store, out, hist>>
@@ -38,22 +46,27 @@ MCNoLeak       == Quiet => NoLeak
 MCLawsAgree    == Quiet => LawsAgree
 
 \* ---- generator --------------------------------------------------------------------------------
+\* every read time in every writing: T = the instant, <<w, z>> = what is handed to bi_read
 TimeSeq == SetToSortSeq(Times, <)
-Expected(p) == [k \in 1..Len(TimeSeq) |->
-                  LET T == TimeSeq[k] IN
-                  [T |-> T,
+ZoneSeq == SetToSortSeq(Zones, <)
+Expected(p) == [k \in 1..(Len(TimeSeq) * Len(ZoneSeq)) |->
+                  LET T == TimeSeq[((k - 1) \div Len(ZoneSeq)) + 1]
+                      z == ZoneSeq[((k - 1) % Len(ZoneSeq)) + 1] IN
+                  [T |-> T, w |-> Wall(WrittenIn(T, z)), z |-> z,
                    latest |-> MapSeq(AsOf(p, T)),
                    first  |-> SetToSeq({MapSeq(f) : f \in FirstReads(p, T)})]]
+\* an event of the history: s = the instant (for the reader), <<w, z>> = the written stamp handed to Bi
+Event(op, s, v) == [op |-> op, s |-> Instant(s), w |-> Wall(s), z |-> ZoneOf(s), v |-> MapSeq(v)]
 Agains == Cardinality({i \in DOMAIN hist : hist[i].op = "again"})
 
 GenMerge == /\ Len(pubs) < MaxMerges
-            /\ \E s \in Stamps, v \in Versions :
-                  Merge(s, v) /\ hist' = Append(hist, [op |-> "merge", s |-> s, v |-> MapSeq(v)])
+            /\ \E s \in WStamps, v \in Versions :
+                  Merge(s, v) /\ hist' = Append(hist, Event("merge", s, v))
 GenAgain == /\ Agains < MaxAgain
-            /\ \E s \in Stamps, v \in Versions :
-                  MergeAgain(s, v) /\ hist' = Append(hist, [op |-> "again", s |-> s, v |-> MapSeq(v)])
+            /\ \E s \in WStamps, v \in Versions :
+                  MergeAgain(s, v) /\ hist' = Append(hist, Event("again", s, v))
 \* the print comes first, so it happens once per expanded state (not once per successor)
-NextGen == /\ PrintT(ToJson([hist |-> hist, reads |-> Expected(pubs)]))
+NextGen == /\ PrintT(ToJson([hist |-> hist, reads |-> Expected(pubs), may_refuse |-> SetToSeq(RefusableT)]))
            /\ (GenMerge \/ GenAgain)
 
 \* the histories of the generator are histories of the specification
